@@ -23,7 +23,7 @@ def sylExpected (fn : String) (args : List String) : Option String :=
   | "chr", [c] => some (optS (bopoOfChar (natOf c)))
   | "code", [c] =>
     let c := natOf c
-    if c == 0 then some (if (tryFromU16 0).isSome then "ok" else "err") else
+    if (tryFromU16 c).isNone then some (unwords ["err", p2bS c 16, p2bS c 0]) else
     let s := spell c
     let blen := (s.map utf8Len).foldl (· + ·) 0
     let (p, c') := pop c
@@ -49,7 +49,7 @@ def sylExpected (fn : String) (args : List String) : Option String :=
     let p := natOf p
     let mask := (List.range 16).foldl (fun acc j =>
       let q := p ^^^ (1 <<< j)
-      if q != 0 && startsWith q p then acc ||| (1 <<< j) else acc) 0
+      if validCode q && startsWith q p then acc ||| (1 <<< j) else acc) 0
     some (toString mask)
   | "sw", [a, b] => some (if startsWith (natOf a) (natOf b) then "1" else "0")
   | _, _ => none
